@@ -56,6 +56,7 @@ def replay(hist, rng, noise=True):
         ninput = 0
         poisoned = False
         stored_yet = False
+        has_resume = any(st["a"] == "computeresume" for st in hist)      # model-level resume: no poisoned throw-away computes
         for k, st in enumerate(hist, 1):
             a = st["a"]
             try:
@@ -85,14 +86,23 @@ def replay(hist, rng, noise=True):
                     H[i] = out if out is not None else H[i]
                     targets.setdefault(t, dict(path=path, expect=None))
                     targets[t]["pending"] = i
+                elif a == "computeresume":
+                    i = st["i"]
+                    r = H[i].compute(resume=True)
+                    if not np.array_equal(np.asarray(r), S[i]):
+                        failures.append((k, f"compute(h{i}, resume=True) returned values different from those fixed when it was built"))
+                    for t, info in targets.items():
+                        if info.get("pending") == i:
+                            info["expect"] = np.array(S[i])
+                            info["pending"] = None
                 elif a == "compute":
                     i = st["i"]
                     kw = {}
                     if noise:
                         kw["optimize_graph"] = rng.random() < 0.7
-                        if rng.random() < 0.3 and not poisoned:
-                            kw["resume"] = True
-                        if not stored_yet and rng.random() < 0.35:
+                        if rng.random() < 0.3 and not poisoned and not any(os.path.exists(info["path"]) for info in targets.values()):
+                            kw["resume"] = True      # neutral only while no user target holds data (otherwise: the model's ComputeResume)
+                        if not stored_yet and not has_resume and rng.random() < 0.35:
                             # throw-away compute with a value-changing compile_function (result ignored; the chunks it leaves in
                             # the intermediate store are overwritten by the plain compute below, which never resumes after this)
                             poisoned = True
@@ -152,6 +162,12 @@ def run(chk):
     chk.extra["exhaustive_histories"] = dict(enumerated=len(ex), replayed=len(hs))
     for steps in (7, 9):
         hs += plangraph.histories(chk, n // 2, steps, chk.seed + steps, label=f"hist{steps}")
+    # histories in which compute(resume=True) is a call of the model (taint prefilled-resume = finding F13)
+    hs += plangraph.histories(chk, n // 2, 6, chk.seed + 66, maxh=4, label="hist6-resume", resume=True,
+                              want=lambda h: any(st["a"] == "computeresume" for st in h["hist"]))
+    # ... and the shortest histories on which the model predicts the stale target of F13 (two arrays stored into one target)
+    hs += plangraph.histories(chk, 4 if chk.tier == "quick" else 60, 7, chk.seed + 67, maxh=4, targets="{1}", label="hist7-resume-F13", resume=True,
+                              want=lambda h: "prefilled-resume" in h["taint"])
     agree = dict(model_bad_real_ok=0, model_ok_real_bad_tainted=0)
     for k, hrec in enumerate(hs):
         hist, taint, mbad = hrec["hist"], set(hrec["taint"]), hrec["bad"]
